@@ -1160,7 +1160,7 @@ class SymEval:
             if isinstance(d, Rat):
                 self.defs[an] = self.A.subst(d, small)
 
-    def expand(self, v, stop=(), depth=12):
+    def expand(self, v, stop=(), depth=40):
         """Substitute names-as-atoms definitions back into a value (closure), leaving
         the atoms in `stop` and calls symbolic."""
         if isinstance(v, SArray):
@@ -1186,18 +1186,13 @@ class SymEval:
                     r = sub.call_function(d[1], args, kw, d[4])
                     if isinstance(r, Rat):
                         mp[a] = r
+            # atoms hidden in the arguments of sin/cos/sqrt/inv/function atoms
+            for a in self.A.atoms_of(v):
+                for x in self.A._nested_atoms(a):
+                    if x not in stop and x not in mp and isinstance(self.defs.get(x), Rat):
+                        mp[x] = self.defs[x]
             if not mp:
-                # atoms hidden in function arguments
-                hidden = False
-                for a in self.A.atoms_of(v):
-                    if self.A._atom_touches(a, {k: 1 for k, d in self.defs.items()
-                                                if isinstance(d, Rat) and k not in stop}) \
-                            and a not in self.defs:
-                        hidden = True
-                if not hidden:
-                    return v
-                mp = {k: d for k, d in self.defs.items() if isinstance(d, Rat)
-                      and k not in stop}
+                return v
             v = self.A.subst(v, mp)
         return v
 
